@@ -710,12 +710,14 @@ class BroadcastJoin(Merge, PartitionsFiltered):
     }
 
     def _divisions(self):
+        # The result is partitioned like the operand that is not broadcast and carries
+        # the index of the operand that is joined on a column (or the joined index).
         if self.broadcast_side == "left":
-            if self.right_index:
+            if self.left_index:
                 return self.right.divisions
             npartitions = self.right.npartitions
         else:
-            if self.left_index:
+            if self.right_index:
                 return self.left.divisions
             npartitions = self.left.npartitions
         return (None,) * (npartitions + 1)
